@@ -216,6 +216,14 @@ pub fn hold<F>(f: F) -> Holder<F> {
 pub fn yes() -> bool {
     true
 }
+/// nesting positions "init" / "opnd": the expression written in front of a nested macro invocation; nothing of the
+/// nested invocation may have run when it is evaluated
+pub fn first<T>(v: T) -> T {
+    if !calls().is_empty() {
+        panic!("a nested macro invocation was evaluated before the expression written in front of it");
+    }
+    v
+}
 /// operand shape "macro": a macro invocation whose value is the callback
 #[macro_export]
 macro_rules! clos {
